@@ -521,6 +521,23 @@ class SymNum(Sym):
         return self
 
 
+def concretize(x):
+    """Case-split a symbolic integer into its concrete values on this path
+    (used for identifier columns, which index Python dicts): returns a python
+    int; the explorer covers every other feasible value on sibling paths."""
+    if not isinstance(x, SymNum):
+        return x
+    ctx = PathCtx.cur
+    for _ in range(64):
+        r = ctx.check()
+        if r != 'sat':
+            raise Infeasible()
+        v = ctx.last_model.eval(x.z, model_completion=True)
+        if ctx.fork(x.z == v):
+            return _pyval(v)
+    raise PathBudget('identifier with more than 64 values')
+
+
 def sym_int(x=0, *a):
     """Drop-in for the builtin int() in modules that convert request numbers:
     truncates symbolic reals toward zero, parses "$sN" tokens."""
